@@ -583,6 +583,11 @@ func (cs *ConsensusState) tryAddVote(vote *types.Vote, peerID p2p.ID) (bool, err
 			}
 
 			evidence := types.NewDuplicateVoteEvidence(voteErr.VoteA, voteErr.VoteB, timestamp, cs.Validators)
+			if evidence == nil {
+				// the equivocating validator is not in the set the evidence is built from
+				cs.Logger.Error("Cannot form evidence for conflicting votes", "validator", vote.ValidatorAddress)
+				return added, err
+			}
 			evidenceErr := cs.evpool.AddEvidenceFromConsensus(evidence)
 			if evidenceErr != nil {
 				cs.Logger.Error("Failed to add evidence to the evidence pool", "err", evidenceErr)
